@@ -21,6 +21,27 @@ class Infra(Exception):
     """Infrastructure failure: maps to exit 2, never to a violation."""
 
 
+class LibraryCrash(Exception):
+    """the harness PROCESS died inside a call into the library (SIGSEGV / SIGBUS / fatal error with sqlittle frames on the
+    running goroutine's stack): the operation never returned -- a violation of whatever property the operation is judged
+    by, not an infrastructure problem.  (Out of memory and deaths outside the library stay infrastructure errors.)"""
+
+    def __init__(self, summary, text):
+        Exception.__init__(self, summary)
+        self.summary, self.text = summary, text
+
+
+def harness_failure(txt, what="harness ops"):
+    """the exception to raise when a harness process exited non-zero"""
+    m = re.search(r"^(fatal error: .*|panic: .*|\[signal SIG\w+.*)$", txt, re.M)
+    run = re.search(r"goroutine \d+ [^\n]*\[running\]:\n(.*?)(?:\n\n|\Z)", txt, re.S)
+    if m and run and "alicebob/sqlittle" in run.group(1) and "out of memory" not in txt[:4000]:
+        sig = re.search(r"\[signal (SIG\w+)", txt)
+        frames = re.findall(r"(github.com/alicebob/sqlittle[^\s(]*)\(", run.group(1))
+        return LibraryCrash("%s in %s" % (sig.group(1) if sig else m.group(1)[:60], frames[0] if frames else "?"), txt[:6000])
+    return Infra("%s failed: %s ... %s" % (what, txt[:700], txt[-1300:]))
+
+
 def seed():
     try:
         return int(os.environ.get("VERIF_SEED", "0"))
